@@ -15,13 +15,12 @@ A_KERNEL_PIP = ('points_in_polygon is used by the Python layer through its contr
                 '(x[k], y[k])); that contract is DISCHARGED from regions/_geometry/pnpoly.pyx by kernel_point_in_polygon / kernel_points_in_polygon '
                 '(loop invariants over the crossing count, any number of vertices and points); remaining trust: ' + A_CYTHON)
 A_KERNEL_GRID = ('the *_overlap_grid kernels are used by the Python layer through their contract (externals/geometry_kernels.py: element [j, i] is FRAC of '
-                 'pixel (i, j); FRAC(use_exact=0, n) = fraction of the n x n regular sub-sample centres inside the shape). DISCHARGED from the .pyx text with '
-                 'loop invariants (contracts/k_kernels.py): the four *_overlap_single_subpixel functions against that definition '
-                 '(spec/masks.py::sampled_fraction, any n); rectangular_overlap_grid and elliptical_overlap_grid completely (every pixel holds its sampled '
-                 'fraction; the pixels skipped by the bounding-window short-cut through a lemma proved by induction over the samples); the per-pixel '
-                 'dispatch of the polygon and circle grids, and for the circle grid the pixels outside its window. STILL ASSUMED: A-KERNEL-WINDOW '
-                 '(geometric lemmas, not machine-checked: a pixel outside the bounding box of a polygon has no member sample; a pixel whose centre is '
-                 'closer to the circle centre than r - half-diagonal has only member samples, farther than r + half-diagonal none), the exact-area '
+                 'pixel (i, j); FRAC(use_exact=0, n) = fraction of the n x n regular sub-sample centres inside the shape, in [0, 1], and for n = 1 the '
+                 'membership of the pixel centre). For use_exact = 0 this contract is DISCHARGED from the .pyx text with loop invariants '
+                 '(contracts/k_kernels.py): the four *_overlap_single_subpixel functions against that definition (spec/masks.py::sampled_fraction, any n) '
+                 'and all four grids completely (every pixel holds its sampled fraction; the pixels that the bounding-window and circle-distance '
+                 'short-cuts leave at 0 or set to 1 through lemmas proved by induction over samples and polygon edges: far pixels of disks, ellipses '
+                 'and polygons, the triangle inequality for the circle, the even crossing number outside the vertex box). STILL ASSUMED: the exact-area '
                  'functions (use_exact = 1, see C03), and ' + A_CYTHON)
 
 PROPERTIES = {
@@ -38,7 +37,7 @@ PROPERTIES = {
                              'minimality of polygon boxes is proved for 3..6 vertices (concrete spine), enclosure of vertices for any number']),
     'C02': dict(level='proof', trusted=[A_PY, A_REAL, A_TRIG, A_NUMPY, A_UNITS,
                                         A_KERNEL_GRID],
-                assumptions=[A_PY, A_REAL, A_TRIG, A_NUMPY, A_UNITS, 'compiled kernels: contract discharged from the .pyx text except A-KERNEL-WINDOW and exact mode (see trusted_base)',
+                assumptions=[A_PY, A_REAL, A_TRIG, A_NUMPY, A_UNITS, 'compiled kernels: contract discharged from the .pyx text for centre/subpixel modes; exact mode assumed (see trusted_base)',
                              'compound and annulus masks are proved against arbitrary operands obeying the base contract of PixelRegion.to_mask']),
     'C15': dict(level='proof', trusted=[A_PY, A_REAL, A_TRIG, A_NUMPY, A_UNITS, 'copy.deepcopy returns a structurally equal, disjoint object graph',
                                         'assumed kernel contract (as C02) for the mask part of the translation clause'],
